@@ -415,6 +415,7 @@ func c05TreeErrors(w *World, r *Report) {
 				ord[k]++
 				why := h.handled(c, 1, 0)
 				r.Check(why == "", "R05.3", fmt.Sprintf("%s error #%d", k, ord[k]), c.Pos(), "tested; stored, raised or handed to callers that do; value unused on the error arm", why+": the tree's error is lost or a fabricated value is used")
+				r.StandsFor("R05.3", staticCallSites(all, f))
 			}
 		}
 	}
